@@ -33,7 +33,7 @@ KNOWN_FILE = os.path.join(VERIF, 'known_findings.json')
 NSHARDS = int(os.environ.get('RV_SHARDS', '16'))
 THOROUGH_SCALE = float(os.environ.get('RV_THOROUGH_SCALE', '4'))
 CASE_CPU_S = float(os.environ.get('RV_CASE_CPU', '10'))
-MAX_RECORDED = 25
+MAX_RECORDED = 80
 
 
 class CpuBudget(BaseException):
